@@ -1385,3 +1385,222 @@ Proof.
   split; [vm_compute; reflexivity|]. split; [vm_compute; discriminate|].
   intros H. vm_compute in H. discriminate H.
 Qed.
+
+(* ================= build_location_from_others ================= *)
+Lemma last_opt_snoc {A} (X : list A) p : last_opt (X ++ [p]) = Some p.
+Proof. unfold last_opt. rewrite rev_app_distr. reflexivity. Qed.
+
+Definition lastpe (l : list part) : Z := match last_opt l with Some p => pe p | None => 0 end.
+
+Lemma lastpe_app X Y : Y <> [] -> lastpe (X ++ Y) = lastpe Y.
+Proof.
+  intros HY. unfold lastpe, last_opt. rewrite rev_app_distr.
+  destruct (rev Y) as [|z zs] eqn:E; [|reflexivity].
+  exfalso. apply HY. rewrite <- (rev_involutive Y), E. reflexivity.
+Qed.
+
+Lemma lastpe_same_end a b Y : pe a = pe b -> lastpe (a :: Y) = lastpe (b :: Y).
+Proof.
+  intros H. destruct Y as [|y Y]; [exact H|].
+  change (a :: y :: Y) with ([a] ++ y :: Y). change (b :: y :: Y) with ([b] ++ y :: Y).
+  rewrite !lastpe_app by discriminate. reflexivity.
+Qed.
+
+Lemma mono_app X : forall lo p Y, mono lo (X ++ [p]) -> mono (pe p) Y -> mono lo (X ++ p :: Y).
+Proof.
+  induction X as [|x X IH]; intros lo p Y H1 H2; simpl in *.
+  - destruct H1 as [Ha [Hb _]]. split; [assumption|]. split; assumption.
+  - destruct H1 as [Ha [Hb Hc]]. split; [assumption|]. split; [assumption|]. apply IH; assumption.
+Qed.
+
+Lemma lend_snoc lo X p : mono lo (X ++ [p]) -> lend (X ++ [p]) = pe p.
+Proof.
+  intros Hm. unfold lend. apply lmax_unique.
+  - apply in_map. apply in_or_app. right. left. reflexivity.
+  - intros y Hy. apply in_map_iff in Hy. destruct Hy as [q [<- Hq]].
+    assert (Hp : In p (X ++ [p])) by (apply in_or_app; right; left; reflexivity).
+    destruct (mono_in _ _ _ Hm Hp).
+    apply in_app_or in Hq. destruct Hq as [Hq|[->|[]]]; [|lia].
+    pose proof (mono_app_last X lo p Hm q Hq). lia.
+Qed.
+
+Lemma lstart_mono lo b B : mono lo (b :: B) -> lstart (b :: B) = ps b.
+Proof. intros H. exact (lstart_gene 1 b B lo H). Qed.
+
+Lemma asc_app X Y : asc (X ++ Y) = asc X ++ asc Y.
+Proof. unfold asc. apply flat_map_app. Qed.
+
+(* the sections, as ascending exon lists on a strand other than -1: each non-empty, without
+   overlaps, and starting at or after the end of the one before *)
+Fixpoint chain (st e : Z) (Bs : list (list part)) : Prop :=
+  match Bs with
+  | [] => True
+  | B :: r => B <> [] /\ same_strand st B /\ mono e B /\ chain st (lastpe B) r
+  end.
+
+Lemma same_strand_app st X Y : same_strand st X -> same_strand st Y -> same_strand st (X ++ Y).
+Proof. unfold same_strand. intros H1 H2. apply Forall_app. split; assumption. Qed.
+
+Lemma blo_fwd st : forall Bs acc lo,
+  acc <> [] -> mono lo acc -> same_strand st acc -> chain st (lastpe acc) Bs ->
+  exists R, blo_go acc Bs = Ok R /\ R <> [] /\ mono lo R /\ same_strand st R /\
+            asc R = asc acc ++ flat_map asc Bs.
+Proof.
+  induction Bs as [|B r IH]; intros acc lo Hne Hm Hst Hch.
+  - exists acc. simpl. rewrite app_nil_r. repeat split; assumption.
+  - destruct Hch as [HB [HstB [HmB Hch]]].
+    destruct (exists_last Hne) as [X [p ->]].
+    destruct B as [|b B']; [congruence|].
+    unfold lastpe in HmB. rewrite last_opt_snoc in HmB.
+    assert (Hp : In p (X ++ [p])) by (apply in_or_app; right; left; reflexivity).
+    destruct (mono_in _ _ _ Hm Hp) as [_ Hpp].
+    pose proof HmB as HmB0. destruct HmB as [Hb1 [Hb2 Hb3]].
+    assert (HstX : same_strand st X).
+    { unfold same_strand in *. apply Forall_app in Hst. tauto. }
+    destruct (same_strand_cons _ _ _ HstB) as [Hstb HstB'].
+    cbn [blo_go]. unfold blo_step.
+    rewrite (lstart_mono _ _ _ HmB0), (lend_snoc _ _ _ Hm).
+    destruct (ps b =? pe p) eqn:E.
+    + rewrite last_opt_snoc, removelast_last. unfold mkFL.
+      replace (pe b <? ps p) with false by lia. cbn [bind].
+      rewrite (lstrand_same st (X ++ [p])) by (try assumption; destruct X; discriminate).
+      set (np := mkPart (ps p) (pe b) st).
+      destruct (IH (X ++ np :: B') lo) as [R [HR [HRne [HRm [HRst HRasc]]]]].
+      * destruct X; discriminate.
+      * apply mono_app; [|exact Hb3].
+        apply (mono_change_last X lo p np Hm); simpl; lia.
+      * apply same_strand_app; [assumption|]. constructor; [reflexivity|assumption].
+      * rewrite lastpe_app by discriminate.
+        rewrite (lastpe_same_end np b B') by reflexivity. exact Hch.
+      * exists R. split; [exact HR|]. split; [assumption|]. split; [assumption|]. split; [assumption|].
+        rewrite HRasc. cbn [flat_map]. rewrite !asc_app.
+        change (asc (np :: B')) with (zrange (ps p) (pe b) ++ asc B').
+        change (asc [p]) with (zrange (ps p) (pe p) ++ []).
+        change (asc (b :: B')) with (zrange (ps b) (pe b) ++ asc B').
+        rewrite (zrange_split (ps p) (pe p) (pe b)) by lia.
+        replace (ps b) with (pe p) by lia.
+        rewrite app_nil_r, <- !app_assoc. reflexivity.
+    + cbn [bind].
+      destruct (IH ((X ++ [p]) ++ b :: B') lo) as [R [HR [HRne [HRm [HRst HRasc]]]]].
+      * destruct X; discriminate.
+      * rewrite <- app_assoc. cbn [app]. apply mono_app; assumption.
+      * apply same_strand_app; assumption.
+      * rewrite lastpe_app by discriminate. exact Hch.
+      * exists R. split; [exact HR|]. split; [assumption|]. split; [assumption|]. split; [assumption|].
+        rewrite HRasc. rewrite asc_app. cbn [flat_map]. rewrite <- app_assoc. reflexivity.
+Qed.
+
+Lemma chain_strands st : forall Bs e, chain st e Bs -> Forall (same_strand st) Bs.
+Proof.
+  induction Bs as [|B r IH]; intros e H; [constructor|].
+  destruct H as [_ [H1 [_ H2]]]. constructor; [assumption|eapply IH; eassumption].
+Qed.
+
+Lemma guard_gene_of st T : T <> [] -> mono 0 T -> same_strand st T -> guard_gene (gene_of st T) = true.
+Proof.
+  intros Hne Hm Hst.
+  pose proof (gene_nonempty st T Hne) as Hg. pose proof (same_strand_gene st T Hst) as Hsg.
+  pose proof (lstrand_same st _ Hg Hsg) as Hstr.
+  destruct (gene_of st T) as [|q r] eqn:Eg; [congruence|].
+  unfold guard_gene. apply andb_true_iff. split.
+  - apply same_strand_b_spec. inversion Hsg as [|? ? Hq Hr]; subst. rewrite Hq. assumption.
+  - apply mono_b_spec. unfold ascending. rewrite Hstr, <- Eg. unfold gene_of.
+    destruct (st =? -1); [rewrite rev_involutive|]; assumption.
+Qed.
+
+(* forward strand (any strand but -1): [leader; core; tail], each ascending, in ascending order *)
+Lemma build_forward st B Bs :
+  st <> -1 -> B <> [] -> mono 0 B -> same_strand st B -> chain st (lastpe B) Bs ->
+  exists R, build_from_others (B :: Bs) = Ok R /\ guard_gene R = true /\
+            idx R = flat_map idx (B :: Bs) /\ llen R = llen B + fold_right (fun l a => llen l + a) 0 Bs.
+Proof.
+  intros Hst Hne Hm HsB Hch.
+  destruct (blo_fwd st Bs B 0 Hne Hm HsB Hch) as [R [HR [HRne [HRm [HRst HRasc]]]]].
+  exists R. split; [exact HR|]. split.
+  - pose proof (guard_gene_of st R HRne HRm HRst) as G. unfold gene_of in G.
+    replace (st =? -1) with false in G by lia. exact G.
+  - split.
+    + rewrite (idx_fwd st R HRst Hst), HRasc. cbn [flat_map]. rewrite (idx_fwd st B HsB Hst). f_equal.
+      pose proof (chain_strands st Bs _ Hch) as HF. clear -HF Hst.
+      induction HF as [|x l Hx Hl IH]; [reflexivity|]. cbn [flat_map]. rewrite IH, (idx_fwd st x Hx Hst). reflexivity.
+    + destruct (asc_length R (mono_okp _ _ HRm)) as [L1 L2].
+      destruct (asc_length B (mono_okp _ _ Hm)) as [L3 L4].
+      assert (HL : forall Bs e, chain st e Bs ->
+                 length (flat_map asc Bs) = Z.to_nat (fold_right (fun l a => llen l + a) 0 Bs) /\
+                 0 <= fold_right (fun l a => llen l + a) 0 Bs).
+      { clear. induction Bs as [|x l IH]; intros e H; [split; [reflexivity|simpl; lia]|].
+        destruct H as [_ [_ [Hm Hc]]]. destruct (IH _ Hc) as [I1 I2].
+        destruct (asc_length x (mono_okp _ _ Hm)) as [A1 A2].
+        cbn [flat_map fold_right]. rewrite app_length, I1, A1. lia. }
+      destruct (HL Bs _ Hch) as [L5 L6].
+      rewrite HRasc, app_length, L3, L5 in L1. lia.
+Qed.
+
+(* ---------- reverse strand ---------- *)
+Lemma mono_drop X : forall lo Y, mono lo (X ++ Y) -> exists lo', mono lo' Y.
+Proof.
+  induction X as [|x X IH]; intros lo Y H; [exists lo; exact H|].
+  destruct H as [_ [_ H]]. eapply IH; exact H.
+Qed.
+
+Lemma mono_app_order X : forall lo Y, mono lo (X ++ Y) ->
+  forall x y, In x X -> In y Y -> pe x <= ps y.
+Proof.
+  induction X as [|a X IH]; intros lo Y H x y Hx Hy; [destruct Hx|].
+  destruct H as [_ [_ H]]. destruct Hx as [->|Hx].
+  - assert (Hin : In y (X ++ Y)) by (apply in_or_app; right; assumption).
+    destruct (mono_in _ _ _ H Hin). assumption.
+  - eapply IH; eassumption.
+Qed.
+
+(* [leader; core; tail] on strand -1: each section lists its exons in descending order and the
+   sections descend; written with ascending lists: section i is [rev Bi], and
+   Bk ++ ... ++ B1 ++ A0 is ascending.  Nothing is ever merged: the result is the plain
+   concatenation, which is the descending listing of that ascending list *)
+Lemma blo_rev : forall Bs A0 lo,
+  A0 <> [] -> Forall (fun B => B <> []) Bs -> mono lo (concat (rev Bs) ++ A0) ->
+  blo_go (rev A0) (map (@rev part) Bs) = Ok (rev (concat (rev Bs) ++ A0)).
+Proof.
+  induction Bs as [|B r IH]; intros A0 lo HA HBs Hm; [reflexivity|].
+  inversion HBs as [|? ? HB Hr]; subst.
+  cbn [rev] in Hm. rewrite concat_app in Hm. cbn [concat] in Hm. rewrite app_nil_r, <- app_assoc in Hm.
+  cbn [map blo_go]. unfold blo_step.
+  destruct (mono_drop _ _ _ Hm) as [lo' Hm'].
+  assert (Hlt : lstart (rev B) < lend (rev A0)).
+  { destruct B as [|b B']; [congruence|]. destruct A0 as [|a A0']; [congruence|].
+    assert (Hb : In b (b :: B')) by (left; reflexivity).
+    assert (Ha : In a (a :: A0')) by (left; reflexivity).
+    pose proof (mono_app_order _ _ _ Hm' b a Hb Ha) as Hord.
+    assert (In b ((b :: B') ++ a :: A0')) as Hb' by (apply in_or_app; left; assumption).
+    assert (In a ((b :: B') ++ a :: A0')) as Ha' by (apply in_or_app; right; assumption).
+    destruct (mono_in _ _ _ Hm' Hb'). destruct (mono_in _ _ _ Hm' Ha').
+    assert (lstart (rev (b :: B')) <= ps b).
+    { unfold lstart. apply lmin_le. apply in_map. apply in_rev in Hb. exact Hb. }
+    assert (pe a <= lend (rev (a :: A0'))).
+    { unfold lend. apply lmax_ge. apply in_map. apply in_rev in Ha. exact Ha. }
+    lia. }
+  replace (lstart (rev B) =? lend (rev A0)) with false by lia. cbn [bind].
+  rewrite <- rev_app_distr.
+  rewrite (IH (B ++ A0) lo); [|destruct B; [congruence|discriminate]|assumption|exact Hm].
+  cbn [rev]. rewrite concat_app. cbn [concat]. rewrite app_nil_r, <- app_assoc. reflexivity.
+Qed.
+
+Lemma idx_app X Y : idx (X ++ Y) = idx X ++ idx Y.
+Proof. unfold idx. apply flat_map_app. Qed.
+
+Lemma build_reverse Bs A0 :
+  A0 <> [] -> Forall (fun B => B <> []) Bs -> mono 0 (concat (rev Bs) ++ A0) ->
+  same_strand (-1) (concat (rev Bs) ++ A0) ->
+  exists R, build_from_others (rev A0 :: map (@rev part) Bs) = Ok R /\
+            R = gene_of (-1) (concat (rev Bs) ++ A0) /\ guard_gene R = true /\
+            idx R = flat_map idx (rev A0 :: map (@rev part) Bs) /\ llen R = llen (concat (rev Bs) ++ A0).
+Proof.
+  intros HA HBs Hm Hst. eexists. split; [apply (blo_rev Bs A0 0); assumption|].
+  assert (Hne : concat (rev Bs) ++ A0 <> []) by (destruct (concat (rev Bs)); [exact HA|discriminate]).
+  split; [reflexivity|]. split; [apply (guard_gene_of (-1)); assumption|]. split.
+  - clear. revert A0. induction Bs as [|B r IH]; intros A0.
+    + cbn. rewrite app_nil_r. reflexivity.
+    + cbn [rev map flat_map]. rewrite concat_app. cbn [concat]. rewrite app_nil_r, <- app_assoc.
+      rewrite IH. cbn [flat_map]. rewrite rev_app_distr, idx_app, <- app_assoc. reflexivity.
+  - apply llen_rev.
+Qed.
